@@ -1,10 +1,18 @@
 #!/bin/sh
 # usage: build_driver.sh <id-lowercase> <ExtractFile> [conv modules...]
-# extracts the model in ocaml/<id>/ and builds ocaml/<id>/driver
+# extracts the model and builds the driver.  Defaults: Coq tree /verif/coq, output in
+# ocaml/<id>/; COQDIR and DRIVER_OUT override them (used for scratch copies of the repository).
 set -e
-cd "$(dirname "$0")/$1"
+here="$(cd "$(dirname "$0")" && pwd)"
+src="$here/$1"
+out="${DRIVER_OUT:-$src}"
+coqdir="${COQDIR:-/verif/coq}"
 ex=$2; shift 2
-timeout 600 coqc -Q /verif/coq Mamba /verif/coq/Extract/$ex.v > extract.log 2>&1 || { cat extract.log; exit 1; }
+mkdir -p "$out"; cd "$out"
+timeout 900 coqc -Q "$coqdir" Mamba "$coqdir/Extract/$ex.v" > extract.log 2>&1 || { cat extract.log; exit 1; }
+[ "$out" = "$src" ] || cp "$src"/*.ml "$out"/ 2>/dev/null || true
 convs=""
-for c in "$@"; do cp ../$c.ml .; convs="$convs $c.ml"; done
-timeout 600 ocamlfind ocamlopt -O3 -w -a -package str -linkpkg model.mli model.ml $convs driver.ml -o driver 2> ocaml.log || { cat ocaml.log; exit 1; }
+for c in "$@"; do cp "$here/$c.ml" .; convs="$convs $c.ml"; done
+extra=""
+[ -f "$src/EXTRA_ML" ] && extra=$(cat "$src/EXTRA_ML")
+timeout 900 ocamlfind ocamlopt -O3 -w -a -package str -linkpkg model.mli model.ml $convs $extra driver.ml -o driver 2> ocaml.log || { cat ocaml.log; exit 1; }
